@@ -346,7 +346,7 @@ class Paraxial:
             z0 = np.ones_like(y1) * z
         else:
             if self.optic.field_type == 'object_height':
-                y = -field_y
+                y = field_y
                 z = obj.geometry.cs.z
 
                 y0 = np.ones_like(y1) * y
